@@ -29,6 +29,10 @@ deriving Repr, BEq, DecidableEq, Inhabited
 inductive Ord | relaxed | acquire | release | acqrel | seqcst
 deriving Repr, BEq, DecidableEq, Inhabited
 
+/-- short names used in trace tokens -/
+def Ord.short : Ord â†’ String
+  | .relaxed => "X" | .acquire => "A" | .release => "R" | .acqrel => "AR" | .seqcst => "SC"
+
 def Ord.isAcq : Ord â†’ Bool
   | .acquire | .acqrel | .seqcst => true
   | _ => false
@@ -141,20 +145,20 @@ def wStep (a : Ann) (log : Log) (w : Writer) (pick : Nat) : Log Ã— Writer Ã— Str
   match w.pc with
   | .idle => (log, w, "idle")
   | .newVersion =>
-    (storeMsg log w.relFence .version 1 a.wVersion, { w with pc := .idle }, s!"S:v:{repr a.wVersion}:1")
+    (storeMsg log w.relFence .version 1 a.wVersion, { w with pc := .idle }, s!"S:v:{a.wVersion.short}:1")
   | .loadGen rec =>
     let g := latest log .gen
-    (log, { w with pc := .store1 rec (genStart g) }, s!"L:g:{repr a.wLoad}:{g}")
+    (log, { w with pc := .store1 rec (genStart g) }, s!"L:g:{a.wLoad.short}:{g}")
   | .store1 rec g =>
     let log' := storeMsg log w.relFence .gen g a.wStore1
     let pc' := match a.wFence with
       | some _ => WPc.fence rec g
       | none => WPc.copy rec g (List.range rec.length)
-    (log', { w with pc := pc' }, s!"S:g:{repr a.wStore1}:{g}")
+    (log', { w with pc := pc' }, s!"S:g:{a.wStore1.short}:{g}")
   | .fence rec g =>
     let o := a.wFence.getD .relaxed
     (log, { pc := .copy rec g (List.range rec.length), relFence := if o.isRel then log.length else w.relFence },
-      s!"F:{repr o}")
+      s!"F:{o.short}")
   | .copy rec g todo =>
     match todo[min pick (todo.length - 1)]? with
     | none => (log, { w with pc := .store2 rec g }, "copy-empty")
@@ -165,7 +169,7 @@ def wStep (a : Ann) (log : Log) (w : Writer) (pick : Nat) : Log Ã— Writer Ã— Str
        { w with pc := if rest.isEmpty then .store2 rec g else .copy rec g rest }, s!"S:c{c}:N:{v}")
   | .store2 _ g =>
     let g2 := genFinish g
-    (storeMsg log w.relFence .gen g2 a.wStore2, { w with pc := .idle }, s!"S:g:{repr a.wStore2}:{g2}")
+    (storeMsg log w.relFence .gen g2 a.wStore2, { w with pc := .idle }, s!"S:g:{a.wStore2.short}:{g2}")
 
 /-! ### the reader machine -/
 
@@ -212,12 +216,12 @@ def rStep (a : Ann) (log : Log) (r : Reader) (pickCell pickMsg : Nat) : Reader Ã
   | .idle => (r, none, "idle")
   | .version =>
     let (v, _, vw) := load log r.view .version a.rVersion pickMsg
-    let tok := s!"L:v:{repr a.rVersion}:{v}"
+    let tok := s!"L:v:{a.rVersion.short}:{v}"
     if v = 0 then ({ r with pc := .idle, view := vw }, some (.ok r.cache), tok)
     else ({ r with pc := .gen1, view := vw }, none, tok)
   | .gen1 =>
     let (g, j, vw) := load log r.view .gen a.rGen1 pickMsg
-    let tok := s!"L:g:{repr a.rGen1}:{g}"
+    let tok := s!"L:g:{a.rGen1.short}:{g}"
     if g = 0 âˆ¨ g = r.cacheGen âˆ¨ g % 2 = 1 then ({ r with pc := .idle, view := vw }, some (.ok r.cache), tok)
     else ({ r with pc := .copy g RETRIES (List.range N) [], view := vw, g1Idx := j }, none, tok)
   | .copy g1 retries todo got =>
@@ -231,10 +235,10 @@ def rStep (a : Ann) (log : Log) (r : Reader) (pickCell pickMsg : Nat) : Reader Ã
        none, s!"L:c{c}:N:{v}")
   | .fence g1 retries got =>
     let o := a.rFence.getD .relaxed
-    ({ r with pc := .gen2 g1 retries got, view := fenceAcq r.view o }, none, s!"F:{repr o}")
+    ({ r with pc := .gen2 g1 retries got, view := fenceAcq r.view o }, none, s!"F:{o.short}")
   | .gen2 g1 retries got =>
     let (g2, j2, vw) := load log r.view .gen a.rGen2 pickMsg
-    let tok := s!"L:g:{repr a.rGen2}:{g2}"
+    let tok := s!"L:g:{a.rGen2.short}:{g2}"
     if g1 = g2 then
       let cells := assemble got
       ({ r with pc := .idle, view := vw, cacheGen := g1, cache := cells, acceptedIdx := r.g1Idx }, some (.ok cells), tok)
